@@ -14,7 +14,7 @@ META = {
                    'edge, never after an untested successful try, and 0 only after a successful try; every waiting iteration '
                    'yields with an option that serves the local run queue; (4) usleep/sleep convert with 10^6 / 10^3 / 0.',
     'not_decided': 'real elapsed time, clock behaviour, scheduling latency',
-    'assumptions': ['hr_gettime fills its argument with the current CLOCK_REALTIME time'],
+    'assumptions': ['clock_gettime(CLOCK_REALTIME) returns the current time'],
     'technique': 'static analysis: guard intervals, exhaustive ordering-case evaluation of a comparison-only function, CFG '
                  'dominance over LLVM IR',
 }
@@ -256,9 +256,33 @@ def rule4_conv(ctx, v):
     ctx.floor('C20.4', 8)
 
 
+def rule5_clock(ctx, fl):
+    ctx.doc('C20.5', 'the clock all deadlines are compared with: hr_gettime reads CLOCK_REALTIME (the clock absolute pthread deadlines are '
+            'expressed in, full resolution - a coarse or different clock lets a sleep or timed wait end before its deadline) into its '
+            'own argument and returns the result of that call')
+    m = ctx.ssa(NATIVE, flavour=fl)
+    h = ctx.need_fn(m, 'hr_gettime')
+    cg = [c for c in h.calls() if c.callee in ('clock_gettime', 'gettimeofday')]
+    ctx.ob('C20.5', 'hr_gettime reads one clock', len(cg) == 1, 'clock_gettime', loc=h.loc)
+    from ..witness import run_witness
+    for name, ok, detail in run_witness(ctx, 'clock'):
+        ctx.ob('C20.5', 'witness: ' + name, ok, 'value of CLOCK_REALTIME in <time.h>', loc='witnesses/abi_witness.c', detail=detail)
+    for c in cg:
+        if c.callee == 'clock_gettime':
+            ctx.ob('C20.5', 'hr_gettime reads CLOCK_REALTIME', const_int(c.args[0]) == 0,
+                   'clock id 0 = CLOCK_REALTIME; CLOCK_REALTIME_COARSE lags by up to a tick, CLOCK_MONOTONIC is not the clock of abstime',
+                   loc=c.loc, detail='clock id %s' % const_int(c.args[0]))
+            ctx.ob('C20.5', 'hr_gettime fills its argument', same_value(h, c.args[1], h.params[0]['id']), 'clock_gettime(.., ts)', loc=c.loc)
+        rets = [r for r in h.exits() if r.ops]
+        ctx.ob('C20.5', 'hr_gettime returns the result of the clock call', bool(rets) and all(same_value(h, r.ops[0], c.id) for r in rets),
+               'callers assert on it', loc=h.loc)
+    ctx.floor('C20.5', 4)
+
+
 def run(ctx):
     for fl in flavours(ctx):
         ctx.unit = fl
+        rule5_clock(ctx, fl)
         v = ctx.view(NATIVE, roots=['myth_nanosleep_body', 'myth_timespec_gt', 'myth_timespec_add', 'myth_mutex_timedlock_body',
                                     'myth_timedjoin_body', 'myth_usleep_body', 'myth_sleep_body'],
                      stops=('hr_gettime', 'myth_yield_body', 'myth_yield_ex_body', 'myth_mutex_trylock_body', 'myth_tryjoin_body'), flavour=fl)
@@ -271,6 +295,8 @@ def run(ctx):
 SCHED = 'src/myth_sched_func.h'
 SYNC = 'src/myth_sync_func.h'
 MUTANTS = [
+    {'name': 'deadlines compared with the coarse clock (seed2 C20/m1)', 'expect': 'C20.5',
+     'edits': [('src/myth_misc_func.h', "  return clock_gettime(CLOCK_REALTIME, ts);", "  return clock_gettime(CLOCK_REALTIME_COARSE, ts);")]},
     {'name': 'accepts tv_nsec == 10^9', 'expect': 'C20.1',
      'edits': [(SCHED, "  if (req->tv_nsec > 999999999) return EINVAL;", "  if (req->tv_nsec > 1000000000) return EINVAL;")]},
     {'name': 'rejects zero seconds', 'expect': 'C20.1',
